@@ -178,6 +178,11 @@ void rsValuesFacet::PruneStructure(const EntityUID target) {
     return;
   }
   const auto& type = std::get<rslang::Typification>(typeValue.value());
+  if (!object::CheckCompatible(oldData.value(), type)) {
+    // Note: data shaped for a previous typification of the structure cannot be pruned element by element
+    ResetFor(target);
+    return;
+  }
   if (!oldData->IsCollection()) {
     if (!CheckBasicElements(oldData.value(), type)) {
       storage->Erase(target);
